@@ -51,8 +51,12 @@ RULE = ("every valid pipeline of harness/pipegen.py and every valid map request 
         "executor with parallel=False, MapSpec replaced after construction) x run folder mode (fresh, pre-existing from a "
         "valid run with cleanup=False, pre-existing with cleanup=True); plus the prepare_run step order regenerated from "
         "the source (2 paths) and the dynamic validation of the translator's classification table on valid requests; "
+        "plus pipeline(output, **root_args) on the pipegen pipelines: complete, each keyword dropped, a surplus keyword "
+        "(fresh name / another root argument); "
         "non-trivial = a mutated case or a base with >= 2 functions; distinct by (kind, description, mode)")
-ASSUMPTIONS = ["a run folder is always passed to map; parallel=False (except the executor fault); show_progress=False",
+ASSUMPTIONS = ["pipeline(...) level: Model/Pipe.v (C02) is the model of Pipeline.run; missing/surplus keywords are judged "
+               "with C02's specification (Pipe.eval fails / keyword names no parameter of a needed function)",
+               "a run folder is always passed to map; parallel=False (except the executor fault); show_progress=False",
                "un-scoped names, no resources, no type annotations (C16), no output_names/auto_subpipeline/fixed_indices",
                "the run_info.json of a pre-existing folder was written by the same pipeline",
                "MapSpecs are written explicitly (requests that need auto-generated MapSpecs are outside the model)",
@@ -550,7 +554,30 @@ def run_impl(c):
         return run_prep(c)
     if k == "classify":
         return run_classify(c)
+    if k == "call":
+        return run_call(c)
     raise ValueError(k)
+
+
+def run_call(c):
+    """pipeline(o, **kw) on a pipegen pipeline (no MapSpecs)."""
+    with contextlib.redirect_stdout(io.StringIO()):
+        try:
+            b = pipegen.build_cached(c["p"], slot="c12")
+        except Exception:  # noqa: BLE001
+            return ["bad-case"]
+        try:
+            b.pipeline(c["o"], **dict(c["kw"]))
+            return ["accepted"]
+        except Exception as e:  # noqa: BLE001
+            return ["rejected", err_class(e), len(b.log.read())]
+
+
+def pipe_func_lit(fd) -> str:
+    return ("(Pipe.mkf " + cstr(fd["name"]) + " " + clist([cstr(o) for o in fd["outs"]]) + " "
+            + clist([cpair(cstr(c), cstr(o)) for c, o in fd["params"]]) + " "
+            + pipegen.alist_lit(pipegen.func_defaults(fd)) + " " + pipegen.alist_lit(list(fd["bound"].items())) + " "
+            + cbool(bool(fd.get("cached", False))) + ")")
 
 
 # ====================================================================================== Coq literals
@@ -635,6 +662,9 @@ def emit_case(c) -> str:
         return f"(CPrepOrder {cbool(c['cleanup'])})"
     if k == "classify":
         return f"(CClassify {cnat(c['tag'])})"
+    if k == "call":
+        return (f"(CCall {clist([pipe_func_lit(f) for f in c['p']['funcs']])} {cstr(c['o'])} "
+                f"{pipegen.alist_lit(c['kw'])} {cbool(bool(c.get('claimed')))})")
     raise ValueError(k)
 
 
@@ -850,6 +880,33 @@ def base_request(rng):
     return F, {"inputs": inputs, "internal": r["internal"], "storage": r["storage"]}
 
 
+def call_cases(rng, pd):
+    """pipeline(o, **kw) with the root arguments of o: complete, each keyword dropped, a surplus keyword."""
+    out = []
+    try:
+        pl = pipegen.build_cached(pd, slot="gen").pipeline
+    except Exception:  # noqa: BLE001
+        return out
+    outs = pipegen.outputs_of(pd)
+    roots_all = pipegen.root_names(pd)
+    for o in rng.sample(outs, min(2, len(outs))):
+        try:
+            ra = list(pl.root_args(o))
+        except Exception:  # noqa: BLE001
+            continue
+        kw = [[n, pipegen.value_for(rng, n)] for n in ra]
+        rng.shuffle(kw)
+        out.append({"kind": "call", "p": pd, "o": o, "kw": kw, "tag": "valid", "claimed": True})
+        for j in range(len(kw)):
+            out.append({"kind": "call", "p": pd, "o": o, "kw": kw[:j] + kw[j + 1:], "tag": "drop_kw", "claimed": False})
+        out.append({"kind": "call", "p": pd, "o": o, "kw": kw + [["zz", "v_zz"]], "tag": "surplus_fresh", "claimed": False})
+        other = [n for n in roots_all if n not in ra]
+        if other:
+            n = rng.choice(other)
+            out.append({"kind": "call", "p": pd, "o": o, "kw": kw + [[n, "v_" + n]], "tag": "surplus_root", "claimed": False})
+    return out
+
+
 def generate(rng, tier, mult):
     from pipefunc.map import storage_registry
 
@@ -873,6 +930,7 @@ def generate(rng, tier, mult):
                           "claimed": True})
         for tag, G in construct_mutants(F, rng, cap):
             cases.append({"kind": "construct", "funcs": G, "tag": tag, "src": "pipegen", "claimed": False})
+        cases += call_cases(rng, pd)
     # construction level: map pipelines of mapgen (MapSpec faults)
     for _ in range(n_mapc):
         F, _req = base_request(rng)
@@ -900,7 +958,8 @@ def generate(rng, tier, mult):
 def nontrivial_key(c):
     if c["kind"] in ("prep", "classify"):
         return (c["kind"], c.get("cleanup"), c.get("tag"))
-    if c.get("tag", "").startswith("valid") and len(c["funcs"]) < 2:
+    fs = c["p"]["funcs"] if c["kind"] == "call" else c["funcs"]
+    if c.get("tag", "").startswith("valid") and len(fs) < 2:
         return None
     body = {k: v for k, v in c.items() if k not in ("tag", "src", "claimed", "registry")}
     return hashlib.md5(json.dumps(body, sort_keys=True).encode()).hexdigest()
@@ -915,6 +974,9 @@ def distribution(c):
         d["fault"] = c["mode"] + ":" + c["tag"]
         d["nfuncs"] = len(c["funcs"])
         d["storage"] = c["storage"] if isinstance(c["storage"], str) else "dict"
+    elif c["kind"] == "call":
+        d["fault"] = "call:" + c["tag"]
+        d["nfuncs"] = len(c["p"]["funcs"])
     return d
 
 
@@ -924,11 +986,31 @@ def finding_id(c, impl_obs, kind):
         return f"prepare_order:cleanup={c['cleanup']}"
     if c["kind"] == "classify":
         return "classification_table"
+    if c["kind"] == "call":
+        # known findings: Pipeline.run discovers a missing / surplus keyword only while / after running user functions
+        if isinstance(impl_obs, list) and len(impl_obs) == 3 and impl_obs[0] == "rejected" and impl_obs[2] > 0:
+            if impl_obs[1] == "ValueError":
+                return "run-missing-input-after-calls"
+            if impl_obs[1] == "UnusedParametersError":
+                return "run-surplus-input-after-calls"
+        return f"call:{c.get('tag')}"
     return f"{c['kind']}:{c.get('tag')}"
 
 
 def shrink(c):
     out = []
+    if c["kind"] == "call":
+        fs = c["p"]["funcs"]
+        for j in range(len(fs)):
+            if len(fs) > 1:
+                d = dict(c)
+                d["p"] = {"funcs": fs[:j] + fs[j + 1:]}
+                out.append(d)
+        for j in range(len(c["kw"])):
+            d = dict(c)
+            d["kw"] = c["kw"][:j] + c["kw"][j + 1:]
+            out.append(d)
+        return out
     if c["kind"] not in ("construct",):
         return out
     fs = c["funcs"]
